@@ -36,7 +36,6 @@ int g_slu_calls;       /* Action::set_last_update */
 int g_state_calls, g_state_arg;
 int g_hrm_calls;       /* ActionHeap::remove */
 int g_hins_calls; double g_hins_date; int g_hins_type; struct Action* g_hins_action;
-int g_push_calls;      /* modified set push_front */
 
 #define FIN(x) __CPROVER_isfinited(x)
 #define EQ(a, b) __CPROVER_equal(a, b) /* identity of doubles (the recorded value IS the argument) */
@@ -61,7 +60,8 @@ void CpuAction__ctor(struct CpuAction* self, struct Model* model, double cost, _
     __CPROVER_assigns(self->__b_Action, g_ctor_calls, g_ctor_cost, g_ctor_failed, g_ctor_model)
     __CPROVER_ensures(self->__b_Action.variable_ == var && self->__b_Action.model_ == model &&
                       g_ctor_calls == __CPROVER_old(g_ctor_calls) + 1 && EQ(g_ctor_cost, cost) &&
-                      g_ctor_failed == failed && g_ctor_model == model);
+                      g_ctor_failed == failed && g_ctor_model == model &&
+                      !self->__b_Action.modified_set_hook_.linked /* a new object's list hooks are unlinked */);
 
 void System__expand(struct System* self, struct Constraint* c, struct Variable* v, double value, _Bool force)
     __CPROVER_requires(self == &g_sys) __CPROVER_assigns(g_exp_calls, g_exp_cnst, g_exp_var, g_exp_value)
@@ -87,9 +87,6 @@ void ActionHeap__insert(struct ActionHeap* self, struct Action* a, double date, 
     __CPROVER_assigns(g_hins_calls, g_hins_date, g_hins_type, g_hins_action)
     __CPROVER_ensures(g_hins_calls == __CPROVER_old(g_hins_calls) + 1 && EQ(g_hins_date, date) &&
                       g_hins_type == type && g_hins_action == a);
-void list_impl_modified_set_hook___unsigned_long_true_void__push_front(
-    struct list_impl_modified_set_hook___unsigned_long_true_void* self, struct Action* a) __CPROVER_requires(1)
-    __CPROVER_assigns(g_push_calls) __CPROVER_ensures(g_push_calls == __CPROVER_old(g_push_calls) + 1);
 /* config::Flag<double>: operator> compares the flag's value, operator double& yields it */
 _Bool Flag_double__operator_gt(struct Flag_double* self, int v) __CPROVER_requires(self == &cfg_tcp_gamma)
     __CPROVER_assigns() __CPROVER_ensures(__CPROVER_return_value == (g_gamma > (double)v));
@@ -102,12 +99,12 @@ double* Flag_double__operator_double__(struct Flag_double* self) __CPROVER_requi
 #define CPU_ON (g_cas.__b_CpuImpl.__b_Resource_T.__b_Resource.is_on_)
 #define GHOSTS0                                                                                                        \
   (g_vn_calls == 0 && g_ctor_calls == 0 && g_exp_calls == 0 && g_uvb_calls == 0 && g_uvp_calls == 0 &&                 \
-   g_slu_calls == 0 && g_state_calls == 0 && g_hrm_calls == 0 && g_hins_calls == 0 && g_push_calls == 0)
+   g_slu_calls == 0 && g_state_calls == 0 && g_hrm_calls == 0 && g_hins_calls == 0)
 #define ALL_GHOSTS                                                                                                     \
   g_vn_calls, g_vn_pen, g_vn_bound, g_vn_id, g_vn_n, g_var.bound_, g_ctor_calls, g_ctor_cost, g_ctor_failed,           \
       g_ctor_model, g_exp_calls, g_exp_cnst, g_exp_var, g_exp_value, g_uvb_calls, g_uvb_bound, g_uvp_calls,            \
       g_uvp_pen, g_slu_calls, g_state_calls, g_state_arg, g_hrm_calls, g_hins_calls, g_hins_date, g_hins_type,         \
-      g_hins_action, g_push_calls
+      g_hins_action
 
 /* constructor: bound = cores * speed, penalty = 1 / cores, weight 1 on the CPU constraint */
 void CpuCas01Action__ctor(struct CpuCas01Action* self, struct Model* model, double cost, _Bool failed, double speed,
@@ -128,7 +125,8 @@ void CpuCas01Action__ctor(struct CpuCas01Action* self, struct Model* model, doub
                       self->__b_CpuAction.__b_Action.model_ == model)
     __CPROVER_ensures(g_slu_calls == (g_model.update_algorithm_ == UpdateAlgo__LAZY ? 1 : 0)) /*@ lazy_dates_the_action */
     __CPROVER_ensures(g_uvb_calls == 0 && g_uvp_calls == 0 && g_state_calls == 0 && g_hrm_calls == 0 &&
-                      g_hins_calls == 0 && g_push_calls == 0) /*@ ctor_does_nothing_else */;
+                      g_hins_calls == 0 && !self->__b_CpuAction.__b_Action.modified_set_hook_.linked)
+    /*@ ctor_does_nothing_else */;
 
 /* CpuCas01Action__new = malloc + the constructor above (emitted by cxx2c); seen through the constructor's contract */
 #define RET_ACTION ((struct CpuCas01Action*)__CPROVER_return_value)
@@ -154,12 +152,13 @@ struct CpuAction* CpuCas01__execution_start(struct CpuCas01* self, double size, 
     __CPROVER_ensures(g_uvp_calls == 0 && g_state_calls == 0) /*@ exec_is_not_suspended */;
 
 /* sleep(d) */
+#define MS (g_modset.__b_vf_ilist_Action__modified_set_hook_) /* boost::intrusive::list model of main (capacity VF_ICAP) */
 #define SLEEP_DUR (duration > 0.0 ? (duration < sg_precision_timing ? sg_precision_timing : duration) : duration)
 struct CpuAction* CpuCas01__sleep(struct CpuCas01* self, double duration)
     __CPROVER_requires(self == &g_cas && WF_CAS && FIN(duration) && NO_MAX_DURATION == VFI_NO_MAX_DURATION && VFI_NO_MAX_DURATION == -1.0 && FIN(sg_precision_timing) && sg_precision_timing > 0.0 &&
                        FIN(g_cas.__b_CpuImpl.speed_.scale) && FIN(g_cas.__b_CpuImpl.speed_.peak) && FIN(SPEED) &&
-                       GHOSTS0 && vf_exc == 0)
-    __CPROVER_assigns(ALL_GHOSTS)
+                       GHOSTS0 && vf_exc == 0 && MS.n < VF_ICAP)
+    __CPROVER_assigns(ALL_GHOSTS, __CPROVER_object_whole(&g_modset))
     __CPROVER_ensures(vf_exc == 0 && __CPROVER_return_value != NULL)
     __CPROVER_ensures(RET_ACTION->__b_CpuAction.__b_Action.max_duration_ == SLEEP_DUR) /*@ sleep_lasts_its_duration */
     __CPROVER_ensures(RET_ACTION->__b_CpuAction.__b_Action.suspended_ == SuspendStates__SLEEPING) /*@ sleep_is_sleeping */
@@ -168,9 +167,12 @@ struct CpuAction* CpuCas01__sleep(struct CpuCas01* self, double duration)
     /*@ endless_sleep_is_ignored */
     __CPROVER_ensures(g_ctor_calls == 1 && g_ctor_cost == 1.0 && g_vn_calls == 1 && g_vn_pen == 1.0 && g_vn_bound == SPEED)
     /*@ sleep_action_shape */
-    __CPROVER_ensures(g_model.update_algorithm_ != UpdateAlgo__LAZY || (g_hrm_calls >= 1 && g_push_calls == 1))
+    __CPROVER_ensures(g_model.update_algorithm_ != UpdateAlgo__LAZY ||
+                      (g_hrm_calls >= 1 && MS.n == __CPROVER_old(MS.n) + 1 &&
+                       MS.d[0] == &RET_ACTION->__b_CpuAction.__b_Action &&
+                       RET_ACTION->__b_CpuAction.__b_Action.modified_set_hook_.linked))
     /*@ lazy_sleep_leaves_heap_and_joins_modified_set */
-    __CPROVER_ensures(g_model.update_algorithm_ == UpdateAlgo__LAZY || (g_hrm_calls == 0 && g_push_calls == 0))
+    __CPROVER_ensures(g_model.update_algorithm_ == UpdateAlgo__LAZY || (g_hrm_calls == 0 && MS.n == __CPROVER_old(MS.n)))
     __CPROVER_ensures(g_uvb_calls == 0);
 
 /* communication variable: penalty, latency event, TCP-gamma bound */
@@ -229,6 +231,7 @@ static void setup(void)
   NA.__b_Action.last_update_           = nondet_double();
   g_route.n                            = nondet_ulong();
   g_back.n                             = nondet_ulong();
+  g_modset.__b_vf_ilist_Action__modified_set_hook_.n = nondet_ulong();
   vf_exc                               = 0;
 }
 
